@@ -59,7 +59,7 @@ func runC16(c *Ctx) {
 		r.Unresolved("submit/atomic-with-shutdown", pkg+".WorkerPool.Submit", "method not found")
 	} else {
 		key := pkg + ".WorkerPool.Submit"
-		recvObj := info.Defs[fd.Recv.List[0].Names[0]]
+		recvObj := info.Defs[recvIdentOf(fd)]
 		recvPath := fmt.Sprintf("%s@%d", recvObj.Name(), recvObj.Pos())
 		var bad []string
 		n := 0
